@@ -59,6 +59,7 @@ func newConn(width, height int, c net.Conn) *Conn {
 		bw:         bufio.NewWriter(c),
 		fbupc:      make(chan FrameBufferUpdateRequest, 128),
 		closec:     make(chan bool),
+		pushDone:   make(chan struct{}),
 		feed:       feed,
 		Feed:       feed, // the send-only version
 		event:      event,
@@ -80,6 +81,10 @@ type Conn struct {
 	bw     *bufio.Writer
 	fbupc  chan FrameBufferUpdateRequest
 	closec chan bool // never sent; just closed
+
+	// pushDone is closed when pushFramesLoop has returned: nobody reads
+	// fbupc any more.
+	pushDone chan struct{}
 
 	// should only be mutated once during handshake, but then
 	// only read.
@@ -255,6 +260,7 @@ func (c *Conn) serve() {
 func (c *Conn) pushFramesLoop() {
 	// failf panics on this goroutine too (e.g. unsupported pixel format);
 	// confine the failure to this connection like serve() does.
+	defer close(c.pushDone)
 	defer func() {
 		if e := recover(); e != nil {
 			log.Debugf("Client disconnect: %v", e)
@@ -496,7 +502,14 @@ func (c *Conn) handleUpdateRequest() {
 	c.read("framebuffer-update.y", &req.Y)
 	c.read("framebuffer-update.width", &req.Width)
 	c.read("framebuffer-update.height", &req.Height)
-	c.fbupc <- req
+
+	select {
+	case c.fbupc <- req:
+	case <-c.pushDone:
+		// the frame pusher has failed and closed the connection; without
+		// a reader the queue would block this goroutine forever
+		c.failf("frame pusher stopped")
+	}
 }
 
 // 6.4.4
